@@ -22,6 +22,8 @@ TEXT = {
          "MC_Normalize checks Confluent/OrderFree/FlattenOK/Idempotent exhaustively (and that the sequential algorithm does accept conflicts, the listed finding); Gen_Normalize emits ordered inputs and tree flattenings; the harness builds each as struct (exact visiting order), generic maps, interface-keyed maps, typed maps/slices/arrays, pointers and nested *Config, compares the unpacked data with the spec's observation and re-feeds it (idempotence)."),
  "C09": ("norm", "TLA+ confluence check (all visiting orders explored by TLC) + replay of every map-built case under K different Go map insertion orders with all outcomes compared, for normalisation and merge",
          "At the model level TLC explores every insertion order (every ordered input is a state) and checks that the outcome is the order-free one; on the code every case built from Go maps is executed 8 (quick) / 32 (thorough) times with rebuilt maps, and all outcomes must equal the specification's single outcome, or lie in the listed deviation's outcome set for conflicting inputs."),
+ "C20": ("paths", "TLA+ index-vs-name rule (UcfgPaths) checked by TLC over a spelling table x MaxIdx x EnableNumKeys x position; exhaustive replay as map key / struct tag / setter name with read-back; random literals trace-validated",
+         "The rule 'index iff integer literal and 0<=n<=MaxIdx and not a single numeric key under EnableNumKeys' is the specification's; TLC checks the allocation bound and name round-trip on the whole table; every combination is replayed three ways on the code and the resulting structure, getter/Has/Remove read-back and list length are compared; random literals in every Go syntax are validated by TLC."),
 }
 NOTE = "bounded universes (stated in evidence.rule); projection through the public API; TLC/JVM/Go runtime trusted; Ideal layer + named deviations listed in known_findings.json"
 
@@ -35,6 +37,8 @@ m = dict(
                source_commits=[], add_only=True),
     
     engines=[
+        dict(name="paths", path="spec/UcfgPaths.tla", serves_properties=["C20"],
+             kind_free_text="TLA+ rule for list-index segments; Gen_Paths/Trace_Paths; harness/cmd/ucfgconf/fam_paths.go"),
         dict(name="norm", path="spec/UcfgNormalize.tla", serves_properties=["C05", "C09", "C18"],
              kind_free_text="TLA+ specification of Go-value normalisation (sequential and order-free definitions); MC_Normalize/Gen_Normalize/Trace_Normalize; harness/cmd/ucfgconf/fam_norm.go"),
         dict(name="store", path="spec/UcfgStore.tla", serves_properties=["C10", "C12", "C15"],
